@@ -10,7 +10,7 @@ CONSTANTS
   PRICE = {10}
   QTY = {1}
   BUNDLE = {"lim"}
-  STALL = {3}
+  STALL = {}
   LateResponseOK = TRUE
 INVARIANTS TypeOK
 PROPERTIES Answers
